@@ -141,6 +141,55 @@ func TestC02(t *testing.T) {
 			t.Fatalf("C02/diff: %v", err)
 		}
 	})
+	// guided walks with predicates: every step selects something, so the
+	// predicates number candidates of several context nodes, of reverse axes
+	// and of steps taken from mixed-kind node-sets
+	runProp(t, "walks", 12000, 300000, func(t *rapid.T) {
+		ev := xmodel.Gen(t, c02DocCfg())
+		p, err := prepareDoc(ev)
+		if err != nil {
+			st.Discard("document-not-mirrored")
+			return
+		}
+		ns := genBindings(t)
+		elems, attrs, targets := docNames(p.doc)
+		ctx := p.doc.Root
+		if rapid.Bool().Draw(t, "innerCtx") {
+			ctx = p.doc.All[rapid.IntRange(0, len(p.doc.All)-1).Draw(t, "ctx")]
+		}
+		c := &evalCase{Events: ev, Ctx: ctx.Ref(), NS: ns, Vars: []varBinding{mixedNodeVar(t, p.doc, "w"), {Local: "n0", T: "num", Num: "2"}}}
+		_, env, err := c.settings(p)
+		if err != nil {
+			t.Fatalf("harness: %v", err)
+		}
+		g := &xast.G{T: t, Env: xast.GenEnv{ElemNames: queryable(elems), AttrNames: queryable(attrs), PITargets: targets, Prefixes: prefixesOf(ns), NoLang: true,
+			NodeVars: []string{"w"}, NumVars: []string{"n0"}, NoAbs: ctx != p.doc.Root}}
+		c.Expr = genWalk(t, g, env, ctx, ctx == p.doc.Root, 4, 2)
+		if rapid.IntRange(0, 3).Draw(t, "wholePred") == 0 {
+			// (walk)[pred]: the filter numbers the whole node-set in document order
+			c.Expr = xast.Filter(c.Expr, []*xast.Expr{g.Pred(1)})
+		}
+		c.Text = xast.Render(c.Expr, xast.RapidChooser{T: t}, drawStyle(t))
+		out, why, err := evalPrepared(c, p)
+		if out == discarded {
+			st.Discard(why)
+			return
+		}
+		st.Eval(1)
+		o := lastObs
+		if o.PredCandidates >= 2 && o.PredCtxNodes >= 2 || o.ReversePred || o.NonIntegralPred || o.FilterContinued {
+			st.Class("walk-with-positional-predicate")
+			key := c.Text + "|" + c.Ctx + fmt.Sprint(ev)
+			st.NonTrivial(key)
+			if len(ev) <= 24 {
+				st.Sample(key, map[string]any{"events": eventStrings(ev), "context": c.Ctx, "expr": c.Text, "w": c.Vars[0].Nodes, "expected": lastRef.Describe()})
+			}
+		}
+		if err != nil {
+			recordFailure("C02", "c02-diff", c, err.Error())
+			t.Fatalf("C02/walks: %v", err)
+		}
+	})
 	runProp(t, "meta", 7500, 100000, func(t *rapid.T) {
 		ev := xmodel.Gen(t, c02DocCfg())
 		g := &xast.G{T: t, Env: xast.GenEnv{ElemNames: []string{"a", "b", "c"}, AttrNames: []string{"id", "k"}, NoNSAxis: true}}
